@@ -8,6 +8,8 @@ namespace c18
     if(cfg.space == "l2") { run_case<TriaMesh, TagL2>(op, cfg, c, o); return true; }
     if(cfg.space == "d0") { run_case<TriaMesh, TagD0>(op, cfg, c, o); return true; }
     if(cfg.space == "d1") { run_case<TriaMesh, TagD1>(op, cfg, c, o); return true; }
+    if(cfg.space == "l3") { run_case<TriaMesh, TagL3>(op, cfg, c, o); return true; }
+    if(cfg.space == "cr") { run_case<TriaMesh, TagCR>(op, cfg, c, o); return true; }
     return false;
   }
 }
